@@ -407,6 +407,145 @@ theorem bowring_exact_on_surface (el : Ellipsoid ℝ) (ha : 0 < el.a) (hf0 : 0 <
     linear_combination (-el.a) * hW2'
   rw [hh]
 
+/-! ### the `cart` operator (Fukushima's one-step inverse) is exact on the surface too -/
+
+/-- the algebra of Fukushima's / Claessens' one-step inverse on the surface: with `q = 1 - f`,
+`W² = cos²φ + q² sin²φ`, `pp = a cosφ / W`, `Z = a q² sinφ / W` the Halley correction vanishes and
+`S1 = K sinφ`, `ar · C1 = K cosφ` -/
+theorem fukushima_surface (a q s c W pp Z ra ar es : ℝ) (ha : 0 < a) (hq : 0 < q) (hc : 0 < c) (hW : 0 < W)
+    (hcs : s ^ 2 + c ^ 2 = 1) (hW2 : W ^ 2 = c ^ 2 + q ^ 2 * s ^ 2)
+    (hpp : pp = a * c / W) (hZ : Z = a * q ^ 2 * s / W) (hra : ra = 1 / a) (har : q = ar) (hes : es = 1 - q ^ 2) (ce4 : ℝ) :
+    let P := ra * pp
+    let S0 := ra * Z
+    let C0 := ar * P
+    let A := Real.sqrt (S0 * S0 + C0 * C0)
+    let F := P * A * A * A - es * C0 * C0 * C0
+    let B := ce4 * S0 * S0 * C0 * C0 * P * (A - ar)
+    let S1 := (ar * S0 * A * A * A + es * S0 * S0 * S0) * F - B * S0
+    let C1 := F * F - B * C0
+    let K := q ^ 11 * c / W ^ 6
+    S1 = K * s ∧ ar * C1 = K * c ∧ 0 < K := by
+  intro P S0 C0 A F B S1 C1 K
+  subst hpp hZ hra har hes
+  have hWne : W ≠ 0 := hW.ne'
+  have hane : a ≠ 0 := ha.ne'
+  have hP : P = c / W := by simp only [P]; field_simp
+  have hS0 : S0 = q ^ 2 * s / W := by simp only [S0]; field_simp
+  have hC0 : C0 = q * c / W := by simp only [C0, hP]; ring
+  have hA : A = q := by
+    simp only [A]
+    rw [Real.sqrt_eq_iff_mul_self_eq (add_nonneg (mul_self_nonneg _) (mul_self_nonneg _)) hq.le, hS0, hC0]
+    field_simp
+    linear_combination (-1 : ℝ) * hW2
+  have hB : B = 0 := by simp only [B, hA]; ring
+  have hF : F = q ^ 5 * c / W ^ 3 := by
+    simp only [F, hA, hP, hC0]
+    field_simp
+    linear_combination hW2 + q ^ 2 * hcs
+  refine ⟨?_, ?_, by positivity⟩
+  · simp only [S1, hB, hA, hS0, hF, K]
+    field_simp
+    linear_combination (s * q ^ 9 * c) * hW2 + (s * q ^ 9 * c) * hcs
+  · simp only [C1, hB, hF, K]
+    field_simp
+    ring
+
+/-- the height of a point of the surface, as the one-step methods compute it, is zero -/
+theorem surface_height (a q s c W K pp Zv ar : ℝ) (hK : 0 < K) (ha : 0 < a) (hq : 0 < q) (hc : 0 < c) (hW : 0 < W)
+    (hcs : s ^ 2 + c ^ 2 = 1) (hW2 : W ^ 2 = c ^ 2 + q ^ 2 * s ^ 2)
+    (hpp : pp = a * c / W) (hZ : Zv = a * q ^ 2 * s / W) (har : q = ar) :
+    (pp * |K * c| + |Zv| * |K * s| - a * Real.sqrt (K * c * (K * c) + ar * (K * s) * (ar * (K * s)))) /
+      Real.sqrt (K * c * (K * c) + K * s * (K * s)) = 0 := by
+  subst har hpp hZ
+  have hden : Real.sqrt (K * c * (K * c) + K * s * (K * s)) = K := by
+    have : K * c * (K * c) + K * s * (K * s) = K ^ 2 * (s ^ 2 + c ^ 2) := by ring
+    rw [this, hcs, mul_one, Real.sqrt_sq hK.le]
+  have hnum : Real.sqrt (K * c * (K * c) + q * (K * s) * (q * (K * s))) = K * W := by
+    have : K * c * (K * c) + q * (K * s) * (q * (K * s)) = (K * W) ^ 2 := by
+      have e : (K * W) ^ 2 = K ^ 2 * W ^ 2 := by ring
+      rw [e, hW2]; ring
+    rw [this, Real.sqrt_sq (by positivity)]
+  have habs1 : |K * c| = K * c := abs_of_pos (by positivity)
+  have habs2 : |a * q ^ 2 * s / W| * |K * s| = a * q ^ 2 * s ^ 2 * K / W := by
+    rw [← abs_mul]
+    have : a * q ^ 2 * s / W * (K * s) = a * q ^ 2 * s ^ 2 * K / W := by ring
+    rw [this, abs_of_nonneg (by positivity)]
+  rw [hden, hnum, habs1, habs2]
+  have hKne : K ≠ 0 := hK.ne'
+  have hWne : W ≠ 0 := hW.ne'
+  field_simp
+  linear_combination (-a) * hW2
+
+/-- the distance from the axis (as a fraction of `a`) below which `cart inv` answers "pole" -/
+noncomputable def cutoffLit : ℝ := @OfScientific.ofScientific ℝ Scalar.instOfScientific 1 true 16
+
+/-- **the `cart` operator: inverse after forward is the identity at height zero** (Fukushima's one-step method
+is exact on the surface of the ellipsoid): for every ellipsoid with `0 < f < 1`, every longitude in ]−π, π], every
+latitude strictly between the poles, not closer to the axis than the cut-off -/
+theorem cart_roundtrip_on_surface (p : Parsed ℝ) (ha : 0 < (p.ellps 0).a) (hf0 : 0 < (p.ellps 0).f) (hf1 : (p.ellps 0).f < 1)
+    (lam phi t : ℝ) (hl1 : -Real.pi < lam) (hl2 : lam ≤ Real.pi)
+    (hp1 : -(Real.pi / 2) < phi) (hp2 : phi < Real.pi / 2)
+    (hfar : (p.ellps 0).a * cutoffLit ≤
+      (p.ellps 0).a * Real.cos phi / Real.sqrt (1 - Real.sin phi ^ 2 * (p.ellps 0).eccentricitySquared)) :
+    Cart.inv p (Cart.fwd p ⟨lam, phi, 0, t⟩) = ⟨lam, phi, 0, t⟩ := by
+  set el := p.ellps 0 with hel
+  set q := 1 - el.f with hq
+  set s := Real.sin phi with hs
+  set c := Real.cos phi with hc
+  have hq0 : 0 < q := by simp only [hq]; linarith
+  have hc0 : 0 < c := Real.cos_pos_of_mem_Ioo ⟨hp1, hp2⟩
+  have hcs : s ^ 2 + c ^ 2 = 1 := Real.sin_sq_add_cos_sq phi
+  have hes : el.eccentricitySquared = 1 - q ^ 2 := by simp [Ellipsoid.eccentricitySquared, two, hq]; ring
+  have hw : 0 < 1 - s ^ 2 * el.eccentricitySquared := by
+    rw [hes]; nlinarith [sq_nonneg s, sq_nonneg c, sq_nonneg (q * s), mul_pos hq0 hq0]
+  set W := Real.sqrt (1 - s ^ 2 * el.eccentricitySquared) with hWdef
+  have hW0 : 0 < W := Real.sqrt_pos.mpr hw
+  have hW2 : W ^ 2 = c ^ 2 + q ^ 2 * s ^ 2 := by
+    rw [hWdef, Real.sq_sqrt hw.le, hes]; nlinarith
+  have hfne : el.f ≠ 0 := ne_of_gt hf0
+  have hN : el.primeVerticalRadiusOfCurvature phi = el.a / W := by
+    simp only [Ellipsoid.primeVerticalRadiusOfCurvature, scalar_beq, Scalar.sq, one, scalar_sin, scalar_sqrt]
+    have z : (@OfNat.ofNat ℝ 0 Scalar.instOfNat) = 0 := by
+      show (Scalar.ofNatLit 0 : ℝ) = 0
+      simp
+    rw [z]
+    simp [hfne, hWdef, hs, sq]
+  have hb : el.semiminorAxis = el.a * q := by simp [Ellipsoid.semiminorAxis, one, hq]
+  set pp := el.a * c / W with hppdef
+  set Zv := el.a * q ^ 2 * s / W with hZdef
+  have hpp0 : 0 < pp := by positivity
+  have hcart : Cart.fwd p ⟨lam, phi, 0, t⟩ = ⟨pp * Real.cos lam, pp * Real.sin lam, Zv, t⟩ := by
+    simp only [Cart.fwd, ← hel, Ellipsoid.cartesian, hN, one, scalar_sin, scalar_cos, add_zero, hes]
+    congr 1
+    · simp only [hppdef]; ring
+    · simp only [hppdef]; ring
+    · simp only [hZdef]; field_simp; ring
+  rw [hcart]
+  have hhyp : Scalar.hypot (pp * Real.cos lam) (pp * Real.sin lam) = pp := by
+    rw [scalar_hypot]
+    have : pp * Real.cos lam * (pp * Real.cos lam) + pp * Real.sin lam * (pp * Real.sin lam) = pp ^ 2 := by
+      have := Real.cos_sq_add_sin_sq lam; nlinarith
+    rw [this, Real.sqrt_sq hpp0.le]
+  have hlam : Scalar.atan2 (pp * Real.sin lam) (pp * Real.cos lam) = lam := by
+    rw [scalar_atan2]; exact arg_polar pp lam hpp0 hl1 hl2
+  have hane : el.a ≠ 0 := ha.ne'
+  have har : q = el.semiminorAxis * (1 / el.a) := by rw [hb]; field_simp
+  have hbranch : Scalar.lt pp (el.a * @OfScientific.ofScientific ℝ Scalar.instOfScientific 1 true 16) = false := by
+    rw [scalar_lt]
+    have : ¬ pp < el.a * cutoffLit := not_lt.mpr hfar
+    simpa [cutoffLit] using this
+  obtain ⟨hS1, hCC, hK⟩ := fukushima_surface el.a q s c W pp Zv (1 / el.a) (el.semiminorAxis * (1 / el.a)) el.eccentricitySquared
+    ha hq0 hc0 hW0 hcs hW2 rfl rfl rfl har hes
+    (@OfScientific.ofScientific ℝ Scalar.instOfScientific 15 true 1 * el.eccentricitySquared * el.eccentricitySquared)
+  simp only [Cart.inv, ← hel, hhyp, hlam, hbranch, Bool.false_eq_true, if_false, one, scalar_hypot, scalar_abs]
+
+  rw [hS1, hCC]
+  set K := q ^ 11 * c / W ^ 6 with hKdef
+  have hphi : Scalar.atan2 (K * s) (K * c) = phi := by
+    rw [scalar_atan2]
+    exact arg_polar K phi hK (by linarith [Real.pi_pos]) (by linarith [Real.pi_pos])
+  rw [hphi, surface_height el.a q s c W K pp Zv (el.semiminorAxis * (1 / el.a)) hK ha hq0 hc0 hW0 hcs hW2 rfl rfl har]
+
 /-! ### the built-in table -/
 
 /-- **every name in the built-in ellipsoid table carries a semi-major axis and a reciprocal
